@@ -89,7 +89,7 @@ func runC05(tier string, seed uint64) {
 		func(s *Sess) { s.Delete(b, "k") },
 		func(s *Sess) { s.DeleteVersion(b, "k", s.vidRef(0)) },
 		func(s *Sess) { s.DeleteVersion(b, "k", s.vidRef(1)) },
-		func(s *Sess) { s.DeleteVersion(b, "k", s.vidRef(len(s.vids) - 1)) },
+		func(s *Sess) { s.DeleteVersion(b, "k", s.vidRef(len(s.vids)-1)) },
 		func(s *Sess) { s.SetVersioning(b, true) },
 		func(s *Sess) { s.SetVersioning(b, false) },
 		func(s *Sess) { s.Get(b, "k", "") },
